@@ -244,6 +244,11 @@ def obligations(tier):
             add_d("unimodality", tag, shape, lambda I: px.proximal_operator(I["v"], unimodality=True),
                   lambda I, out: [(f"column {j}: unimodal", d_or(*[d_and(*[d_le(c[i], c[i + 1]) for i in range(p)], *[d_le(c[i + 1], c[i]) for i in range(p, len(c) - 1)]) for p in range(len(c))]))
                                   for j, c in enumerate(cols(out))], "feasible: every column unimodal")
+    # ====================================================================== bounded stand-in (never counted as proved): end-to-end native survey - the real
+    # entry points, unstubbed, on seeded tensors; a cross-check of the composed contracts on what they assume away (degenerate data, option combinations)
+    from .c09 import BoundedOb
+    from . import e2e_native
+    obs.append(BoundedOb(f"{PID}/bounded/native survey: the returned factor of every constrained mode is feasible", "tensorly.decomposition:constrained_parafac", lambda: e2e_native.c11(tier), dict(order="3 (4 thorough)", ranks="1-3", constraints=8, specifications="scalar, dict, list"), "seed 0; signed and non-negative data, SVD and random initialisation, outer/inner budgets (0,1), (1,1), (3,5)", pid=PID))
     return obs
 
 
